@@ -470,6 +470,20 @@ def bind_native_fun(environment, func, alias=None):
     add(environment, func, alias)
 
 
+def callback_args(fn, values, pos):
+    names = fn.getArgNames()
+    if len(names) < len(values):
+        raise CklRuntimeError(
+            ValueString("ERROR"),
+            f"Function {fn.name} must accept {len(values)} argument(s)",
+            pos,
+        )
+    args = Args(pos)
+    for name, value in zip(names, values):
+        args.addArg(name, value)
+    return args
+
+
 def safe_math(fn, pos, *args):
     try:
         return fn(*args)
@@ -1750,7 +1764,7 @@ class FuncFind(ValueFunc):
                 elem = lst[idx]
                 if key:
                     elem = key.execute(
-                        Args(pos).addArg(key.getArgNames()[0], elem), env, pos
+                        callback_args(key, [elem], pos), env, pos
                     )
                 if elem == item:
                     return ValueInt(idx)
@@ -1810,7 +1824,7 @@ class FuncFindLast(ValueFunc):
                 elem = lst[idx]
                 if key:
                     elem = key.execute(
-                        Args(pos).addArg(key.getArgNames()[0], elem), env, pos
+                        callback_args(key, [elem], pos), env, pos
                     )
                 if elem == item:
                     return ValueInt(idx)
@@ -3173,18 +3187,14 @@ class FuncProcessLines(ValueFunc):
             inp = inparg.asInput()
 
             def cb(line):
-                args = Args(pos).addArg(
-                    callback.getArgNames()[0], ValueString(line)
-                )
+                args = callback_args(callback, [ValueString(line)], pos)
                 return callback.execute(args, env, pos)
 
             return ValueInt(inp.process(cb))
         elif inparg.isList():
             lst = inparg.asList().value
             for element in lst:
-                args = Args(pos).addArg(
-                    callback.getArgNames()[0], element.asString()
-                )
+                args = callback_args(callback, [element.asString()], pos)
                 callback.execute(args, env, pos)
             return ValueInt(len(lst))
         else:
@@ -3710,17 +3720,13 @@ class FuncSorted(ValueFunc):
         result = lst.value[:]
         for i in range(len(result)):
             v = key.execute(
-                Args(pos).addArg(key.getArgNames()[0], result[i]), env, pos
+                callback_args(key, [result[i]], pos), env, pos
             )
             for j in range(i - 1, -1, -1):
                 v2 = key.execute(
-                    Args(pos).addArg(key.getArgNames()[0], result[j]), env, pos
+                    callback_args(key, [result[j]], pos), env, pos
                 )
-                cmpargs = (
-                    Args(pos)
-                    .addArg(cmp.getArgNames()[0], v)
-                    .addArg(cmp.getArgNames()[1], v2)
-                )
+                cmpargs = callback_args(cmp, [v, v2], pos)
                 comparison = cmp.execute(cmpargs, env, pos).value
                 if comparison < 0:
                     temp = result[j + 1]
